@@ -2,6 +2,7 @@ CHECK = {
         "obligations": ["C14.gen_goroutines_own_values", "C14.gen_stream_read_empty", "C14.c14_stream_short_partial", "C14.c14_stream_short_witness", "C14.c14_stream_zero_keeps", "C14.gen_return", "C14.c14_exactly_once", "C14.c14_inv", "C14.c14_fifo_whole", "C14.c14_short", "C14.c14_drain", "C14.c14_oversize", "C14.c14_oversize_cloak",
                         "C14.c14_isolation", "C14.sess_sim",
                         "E2EDg.c14_end_to_end", "E2EDg.c14_end_to_end_isolation", "E2EDg.wire_sim", "E2EDg.isEnc_exists", "E2EDg.sender_one_frame", "E2EDg.undecodable_dropped",
+                        "E2EDg.c14_end_to_end_bytes", "E2EDg.c14_end_to_end_bytes_isolation", "E2EDg.c14_one_conn_order", "E2EDg.labelled",
                         "C14.gen_eof", "C14.gen_has", "C14.gen_short", "C14.gen_closing", "C14.gen_fits", "C14.gen_loop", "C14.gen_max",
                         "C14.gen_max_cloak", "C14.gen_structure", "C14.write_eq", "C14.read_eq", "DgDemux.isolation",
                         "C14.c14_entry_whole", "C14.c14_entry_transparent", "C14.c14_readfrom_whole", "C14.c14_readfrom_stream_unchanged",
